@@ -295,7 +295,7 @@ def run(ctx, spec):
         list_cmds = ['list', 'list *', 'list %s:' % st['names'][e['ci']], 'list ~ %d' % rng.randint(1, 30), 'list ' + e['rec']['iface'], 'list .' + e['rec']['name']]
         hooks = {}
         for _ in range(rng.choice([0, 0, 1, 2, 4])):
-            hooks.setdefault(rng.randint(1, len(st['entries'])), []).append(rng.choice(list_cmds))
+            hooks.setdefault(rng.randint(1, len(st['entries'])), []).append(rng.choice(list_cmds + ['connection all', 'filter', 'breakpoint', 'help', 'connection all']))
         # a breakpoint too: in file / pipe / run mode a hit prints a notice and the stream goes on
         brk = pick_filter(rng, st) if rng.random() < 0.45 else None
         case = {'lines': [x['line'] for x in st['entries']], 'filter': filt, 'breakpoint': brk, 'k': k, 'hooks': {str(a): b for a, b in hooks.items()}}
